@@ -179,7 +179,39 @@ def run(prop, tier, seed):
         for prof, (nq, nt) in sorted(spec["profiles"].items()):
             n = nq if quick else nt
             jobs += [(prof, seed * 1000003 + i) for i in range(n)]
+        # ---- stimuli derived from behaviours of the specification itself (tlc -simulate on SimCore.tla)
+        model_scs = []
+        if spec.get("model_stim", True):
+            try:
+                from harness import modelstim
+                mcname = spec["mc_quick"][0]
+                recs, mr = modelstim.simulate(mcname, 12 if quick else 200, seed + 1, scratch,
+                                              timeout=240 if quick else 1200)
+                want = 60 if quick else 1500
+                step = max(1, len(recs) // want)
+                model_scs = [modelstim.to_scenario(r, i) for i, r in enumerate(recs[::step][:want])]
+                if not recs:
+                    verdict.machinery.append("tlc -simulate produced no behaviour: " + mr["out"][-500:])
+            except Exception as e:
+                verdict.machinery.append("model-derived stimuli failed: %r" % (e,))
+        mruns = batch.run_many(model_scs) if model_scs else []
+        for i, r in enumerate(mruns):
+            r["profile"] = "model:" + spec["mc_quick"][0]
+            r["seed"] = i
         runs, st = batch.batch(jobs, scratch)
+        mok = [r for r in mruns if r.get("trace") is not None]
+        if mok:
+            mv, mst = tlcrun.monitor_traces([r["trace"] for r in mok], scratch)
+            for r, v in zip(mok, mv):
+                r["verdict"] = v
+            mres, mcst = tlcrun.conform_traces([r["trace"] for r in mok], scratch)
+            st["lines"] += sum(len(r["trace"]) for r in mok)
+            st["states"] += mst["states"]
+            st["errors"] += mst["errors"]
+            model_conf = sum(1 for c in mres if c is not None and c[0] >= c[1])
+        else:
+            model_conf = 0
+        runs = runs + mruns
         nviol = 0
         samples = []
         clauses = set(CLAUSES[prop])
@@ -243,6 +275,7 @@ def run(prop, tier, seed):
                + int(extra_cov.get("traces_validated_against_impl", 0)),
                "monitor_traces": len(runs), "monitor_lines": st["lines"], "monitor_states": st["states"],
                "conformance_traces": len(ctr), "conformance_full": conf_ok,
+               "model_derived_scenarios": len(mok), "model_derived_conform_to_core": model_conf,
                "conformance_divergences": divergences[:20], "conformance_states": cst["states"],
                "clause_hits": hits, "samples": samples,
                "exhaustive": all(c["complete"] for c in mc["configs"]),
